@@ -23,6 +23,8 @@ RULE = ("modules of 1-3 dataclasses written to real files (linear inheritance ch
         "other. Extra streams: a class docstring documenting an inherited field; multiple inheritance queried in both orders "
         "(cache history); '#' inside a string default; a comment on the class line; malformed sources (valid-Python snippets in "
         "real files, and arbitrary token soup through a patched inspect_getsource) where only model = implementation is checked. "
+        "corpus/C19/*.json (the minimised inputs of the repaired defects: cache aliasing, class-line comment, inherited entry, and of "
+        "the remaining '#'-in-default finding) run first. "
         "Non-trivial = at least one queried field has at least one position filled; distinct by full case.")
 TRUSTED = ["inspect.getsource / inspect.getdoc / cls.__doc__ (observed per class and given to the model as the case input)",
            "docstring_parser (third party): the params it returns for each class docstring are an oracle input of the case",
@@ -365,6 +367,21 @@ def gen_soup(rng):
     return dict(kind="soup", classes=[k], target=None, spec=False, queries=qs)
 
 
+def _corpus():
+    """corpus/C19/*.json: minimised inputs that once failed (the three repaired defects and the remaining finding);
+    they run first in every tier, so a regression of a repair is reported again with its old signature"""
+    import json
+    import os
+    d = os.path.join(os.path.dirname(os.path.dirname(os.path.dirname(os.path.abspath(__file__)))), "corpus", "C19")
+    out = []
+    if os.path.isdir(d):
+        for f in sorted(os.listdir(d)):
+            if f.endswith(".json"):
+                with open(os.path.join(d, f)) as fh:
+                    out.append(json.load(fh))
+    return out
+
+
 def gen(tier, seed):
     rng = random.Random(f"C19-{seed}")
     big = tier != "quick"
@@ -380,7 +397,7 @@ def gen(tier, seed):
     cases += [gen_snippets(rng) for _ in range(3000 if big else 250)]
     cases += [gen_soup(rng) for _ in range(6000 if big else 500)]
     rng.shuffle(cases)       # every chunk evaluated inside Coq gets the same mix of streams
-    return cases
+    return _corpus() + cases
 
 
 # --------------------------------------------------------------------------------------------------
@@ -627,7 +644,7 @@ def to_coq(case, obs):
         k = dsl[o["name"]]
         ks.append(f"(mkk {cstr(o['name'])} {cstrlist(o['mro'])} {copt(cstrlist(o['src'])) if o['src'] is not None else 'None'} "
                   f"{copt(cstrlist(o['doc'])) if o['doc'] is not None else 'None'} "
-                  f"{clist([cpair(cstr(a), ctext(b)) for a, b in o["args"]])} {c_layout(k)})")
+                  f"{clist([cpair(cstr(a), ctext(b)) for a, b in o['args']])} {c_layout(k)})")
     qs = [f"(mkq {cstr(cn)} {cstr(fn)} {c_parts(got)})" for (cn, fn), got in zip(case["queries"], obs["queries"])]
     hs = [f"(mkh {cstr(h['field'])} {copt(ctext(h['explicit'])) if h['explicit'] else 'None'} {c_parts(h['parts'])} "
           f"{copt(ctext(h['help'])) if h['help'] is not None else 'None'})" for h in obs["helps"]]
